@@ -1029,7 +1029,12 @@ class C17(Prop):
   translators = [t_c17.run]
   case_timeout_s = 40
   jobs_quick = 6
-  rule = ('well-nested programs skip/seq/scope/raise/try/probe/act over the 21 driven managers of the T-SCOPE '
+  rule = ('ROUND 4 additions: call = creating an object inside a detour, a destination FUNCTION runs a sub-program '
+          '(returns, raises, creates the class again, opens nested detours); falsy family: for every manager a '
+          'None/False/0/empty setting nested under and next to truthy ones while a second thread holds a truthy '
+          '(dynamic evaluation: process-wide) setting, deterministic hand-offs; ContextualObject.override on one '
+          'object shared by all threads. '
+          'well-nested programs skip/seq/scope/raise/try/probe/act over the 21 driven managers of the T-SCOPE '
           'registry (act = a public action on the manager object of the enclosing block: TimeIt.end()/status(), '
           'pg.with_contextual_override wrapper called from a new thread; pg.view() inner renders are a manager; '
           'TimeIt and ContextualOverride objects are re-used; kwargs carry mutable nested dict / list values); '
